@@ -1,5 +1,7 @@
 import Proofs.C18
-#print axioms C18.series_order_independent_partial
+#print axioms C18.series_order_independent
+#print axioms C18.series_order_independent_results
+#print axioms C18.cells_iteration_order_independent
 #print axioms C18.axes_order_independent
 #print axioms C18.cells_hold_exactly_matching_measurements
 #print axioms C18.cells_insertion_order_independent
